@@ -1,6 +1,6 @@
 """State rules: R-RESET, R-VERBOSE, R-DETERM (C12) and R-FRESH, R-ACCUM, R-MEMO (C13; R-ACCUM also C05)."""
 import ast
-from ..model import (AnalysisError, ClassInfo, src, loc, call_name, dotted, qualname, norm_stmt, params_of, is_const, get_arg)
+from ..model import (AnalysisError, ClassInfo, src, loc, call_name, dotted, qualname, norm_stmt, params_of, is_const, get_arg, iter_base)
 from .. import flow, effects
 from . import common
 
@@ -303,6 +303,23 @@ def r_determ(ctx):
 # ---------------------------------------------------------------------------------------------------
 # R-FRESH
 # ---------------------------------------------------------------------------------------------------
+def r_objective_fresh(ctx, first_send=None, rule="R-FRESH"):
+    """The objective leaf is a new Expression created by the solve root on every path before anything is sent: it is then the last leaf of the
+    numbering when the wrappers read the problem size, and no earlier solve's leaf is reused."""
+    repo = ctx.repo
+    root = common.solve_root(repo)
+    if first_send is None:
+        sends = [c for c in ast.walk(root) if isinstance(c, ast.Call) and call_name(c) in ("send_constraint_to_solver", "send_lmi_constraint_to_solver")]
+        if not sends:
+            raise AnalysisError("solve root sends nothing to the wrapper")
+        first_send = common.stmt_of(min(sends, key=lambda c: c.lineno))
+    objs = [s for s in flow.stmts_of(root, ast.Assign) if any(dotted(t) == "self.objective" for t in s.targets)]
+    ok = any(isinstance(s.value, ast.Call) and call_name(s.value) == "Expression" and flow.dominates(s, first_send) for s in objs) and len(objs) == 1
+    ctx.ob(rule, "PEP.%s::fresh objective leaf" % root.name, ok,
+           "a new objective leaf is created at each solve before anything is sent" if ok else
+           "the objective is not a fresh leaf created on every path before the first send", loc(root, objs[0] if objs else first_send))
+
+
 def r_fresh(ctx):
     repo = ctx.repo
     pep = common.pep_class(repo)
@@ -347,7 +364,7 @@ def r_fresh(ctx):
     if not sends:
         raise AnalysisError("solve root sends nothing to the wrapper")
     first_send = common.stmt_of(min(sends, key=lambda c: c.lineno))
-    tracked = tracked_lists(root)
+    tracked = tracked_lists(root, repo)
     for attr in sorted(tracked):
         rebinds = [s for s in flow.stmts_of(root, ast.Assign) if any(dotted(t) == "self." + attr for t in s.targets)
                    and _is_mutable_container(s.value) and _empty_container(s.value)]
@@ -356,11 +373,25 @@ def r_fresh(ctx):
                "rebound to a new empty list before the first send" if ok else
                "`self.%s` is not rebound to a fresh empty list on every path before the first send: it keeps the entries of earlier solves" % attr,
                loc(root, first_send))
-    objs = [s for s in flow.stmts_of(root, ast.Assign) if any(dotted(t) == "self.objective" for t in s.targets)]
-    ok = any(isinstance(s.value, ast.Call) and call_name(s.value) == "Expression" and flow.dominates(s, first_send) for s in objs) and len(objs) == 1
-    ctx.ob("R-FRESH", "PEP.%s::fresh objective leaf" % root.name, ok,
-           "a new objective leaf is created at each solve before anything is sent" if ok else
-           "the objective is not a fresh leaf created on every path before the first send", loc(root, objs[0] if objs else first_send))
+        # the tracking list never becomes another name of a container that outlives the solve
+        for s in flow.stmts_of(root, ast.Assign):
+            if not any(dotted(t) == "self." + attr for t in s.targets):
+                continue
+            v = s.value
+            if not (isinstance(v, (ast.Attribute, ast.Name, ast.Subscript)) or (isinstance(v, ast.IfExp))):
+                continue
+            later = []
+            for n in ast.walk(root):
+                if n.__class__ is ast.Call and call_name(n) in effects.CONTAINER_MUTATORS and isinstance(n.func, ast.Attribute) and dotted(n.func.value) == "self." + attr:
+                    later.append(n)
+                elif isinstance(n, ast.AugAssign) and dotted(n.target) == "self." + attr:
+                    later.append(n)
+            later = [n for n in later if n.lineno > s.lineno or flow.in_loop(s) is not None]
+            ctx.ob("R-FRESH", "PEP.%s::%s shares no container" % (root.name, attr), not later,
+                   "`%s` only reads the other container" % norm_stmt(s)[:70] if not later else
+                   "`%s` makes self.%s another name of `%s`, and `%s` then grows that container: what is recorded during a solve stays in the model and is "
+                   "sent again by the next solve" % (norm_stmt(s)[:70], attr, src(v), norm_stmt(common.stmt_of(later[0]))[:60]), loc(root, s))
+    r_objective_fresh(ctx, first_send=first_send)
     # 3. class constraints and partition constraints are regenerated before they are sent
     for meth, what in (("set_class_constraints", "class constraints"), ("add_partition_constraints", "partition constraints")):
         calls = [c for c in ast.walk(root) if isinstance(c, ast.Call) and call_name(c) == meth]
@@ -379,8 +410,9 @@ def _empty_container(v):
     return isinstance(v, ast.Call) and not v.args and not v.keywords
 
 
-def tracked_lists(root):
-    """self attributes to which the solve root appends an object that it also hands to a send call."""
+def tracked_lists(root, repo=None):
+    """self attributes in which the solve root records what it hands to a send call: those it appends a sent object to, and
+    (when a repository is given) those it rebinds / extends and the proof reconstruction iterates."""
     sent = set()
     for c in ast.walk(root):
         if isinstance(c, ast.Call) and call_name(c) in ("send_constraint_to_solver", "send_lmi_constraint_to_solver") and c.args:
@@ -391,6 +423,26 @@ def tracked_lists(root):
             d = dotted(c.func.value)
             if d and d.startswith("self.") and d.count(".") == 1 and src(c.args[0]) in sent:
                 out.add(d.split(".", 1)[1])
+    if repo is not None:
+        rec = common.reconstruction_fn(repo)
+        iterated = set()
+        for n in ast.walk(rec):
+            if isinstance(n, (ast.For, ast.comprehension)):
+                d = dotted(iter_base(n.iter)[0])
+                if d and d.startswith("self.") and d.count(".") == 1:
+                    iterated.add(d.split(".", 1)[1])
+        for s in ast.walk(root):
+            tg = []
+            if isinstance(s, ast.Assign):
+                tg = s.targets
+            elif isinstance(s, ast.AugAssign):
+                tg = [s.target]
+            elif isinstance(s, ast.Call) and call_name(s) in ("extend", "append") and isinstance(s.func, ast.Attribute):
+                tg = [s.func.value]
+            for t in tg:
+                d = dotted(t)
+                if d and d.startswith("self.") and d.count(".") == 1 and d.split(".", 1)[1] in iterated:
+                    out.add(d.split(".", 1)[1])
     if len(out) < 2:
         raise AnalysisError("solve root: fewer than two tracking lists found (%s)" % sorted(out))
     return out
